@@ -11,7 +11,6 @@ import (
 
 	"rscheck/cfgq"
 	"rscheck/core"
-	"rscheck/pat"
 )
 
 // Consumer is a function literal ranging over a channel.
@@ -248,111 +247,103 @@ func WaitLoop(c *core.Ctx, rule, key string, g *cfgq.Graph, body *ast.BlockStmt,
 	}
 	avoid := func(n ast.Node) bool { return plain[n] }
 	armEdge := func(b *cfg.Block, s int) bool { return arms[b.Succs[s]] }
-	var loop *ast.ForStmt
-	for _, p := range core.PathTo(body, first) {
-		if f, ok := p.(*ast.ForStmt); ok && loop == nil {
-			loop = f
+	// Boolean locals that can only be true after the receive ("done" flags, per-iteration or loop-carried):
+	// declared false, only assigned constants, and every `= true` is reachable only through the receive.
+	// An edge that establishes such a flag as true is therefore as good as the receive itself, whatever
+	// the loop form (for !done {...}, for {...; if finished { break } }, done == false, switch ...).
+	flags, opaque := map[types.Object]bool{}, false
+	isBool := func(o types.Object) bool {
+		v, ok := o.(*types.Var)
+		if !ok || v.IsField() || !within(v, body) {
+			return false
 		}
+		b, ok := v.Type().Underlying().(*types.Basic)
+		return ok && b.Kind() == types.Bool
 	}
-	if loop == nil || loop.Cond == nil {
-		w := g.Path(cfgq.Query{From: g.Entry(), Avoid: avoid, AvoidEdge: armEdge, TargetExit: NormalExit})
-		c.Check(rule, key, first.Pos(), w == nil, "a return is reachable without receiving from the done channel: "+consequence, w...)
-		return
-	}
-	// flag idiom
-	var flag types.Object
-	cond := ast.Unparen(loop.Cond)
-	if u, ok := cond.(*ast.UnaryExpr); ok && u.Op == token.NOT {
-		flag = core.ObjOf(info, u.X)
-	} else if b := pat.Expr("_f == false").Match(info, cond, nil); b != nil {
-		flag = core.ObjOf(info, b["_f"].(ast.Expr))
-	} else if b := pat.Expr("_f != true").Match(info, cond, nil); b != nil {
-		flag = core.ObjOf(info, b["_f"].(ast.Expr))
-	}
-	fv, _ := flag.(*types.Var)
-	if fv == nil || fv.IsField() || !within(fv, body) {
-		c.Undecidedf(rule, key, loop.Pos(), "loop condition `%s` is not the `!done` flag idiom", c.Src(loop.Cond))
-		return
-	}
-	_, loopBody := RangeBlocks(g, loop)
-	bad := ""
-	var wit []string
-	undecided := ""
-	core.InspectAll(body, func(n ast.Node) bool {
-		var rhs ast.Expr
-		var at ast.Node
-		switch x := n.(type) {
-		case *ast.AssignStmt:
-			if as, r := AssignsTo(info, x, flag); as != nil {
-				rhs, at = r, as
+	cands := map[types.Object]bool{}
+	core.Inspect(body, func(n ast.Node) bool {
+		if id, ok := n.(*ast.Ident); ok {
+			if o := core.ObjOf(info, id); o != nil && isBool(o) {
+				cands[o] = true
 			}
-		case *ast.ValueSpec:
-			for i, id := range x.Names {
-				if info.Defs[id] == flag && i < len(x.Values) {
-					rhs, at = x.Values[i], x
-				}
-			}
-		case *ast.UnaryExpr:
-			if x.Op == token.AND && core.ObjOf(info, x.X) == flag {
-				undecided = "the flag's address is taken"
-			}
-		}
-		if at == nil {
-			return true
-		}
-		tv, ok := info.Types[rhs]
-		if rhs == nil || !ok || tv.Value == nil {
-			undecided = fmt.Sprintf("non-constant assignment to the loop flag: %s", c.Src(at))
-			return true
-		}
-		if tv.Value.String() != "true" {
-			return true
-		}
-		p, ok := g.Find(at)
-		if !ok || !Within(at, loop.Body) {
-			bad = fmt.Sprintf("`%s` outside the waiting loop's body", c.Src(at))
-			return true
-		}
-		if w := g.Path(cfgq.Query{From: cfgq.Point{B: loopBody}, Avoid: avoid, AvoidEdge: armEdge, Target: IsNode(p.Node())}); w != nil {
-			bad, wit = fmt.Sprintf("`%s` is reachable in an iteration that did not receive from the done channel", c.Src(at)), w
 		}
 		return true
 	})
-	if undecided != "" {
-		c.Undecidedf(rule, key, loop.Pos(), "%s", undecided)
-		return
-	}
-	if bad == "" {
-		// other ways out of the loop: break / return / goto not preceded by the receive
-		isCond := IsNode(loop.Cond)
-		var done *cfg.Block
-		for _, b := range g.CFG.Blocks {
-			if b.Kind == cfg.KindForDone && b.Stmt == ast.Stmt(loop) {
-				done = b
+	for o := range cands {
+		valid := true
+		core.InspectAll(body, func(n ast.Node) bool {
+			var rhs ast.Expr
+			var at ast.Node
+			switch x := n.(type) {
+			case *ast.AssignStmt:
+				if as, r := AssignsTo(info, x, o); as != nil {
+					rhs, at = r, as
+					if r == nil {
+						valid = false
+					}
+				}
+			case *ast.ValueSpec:
+				for i, id := range x.Names {
+					if info.Defs[id] == o && i < len(x.Values) {
+						rhs, at = x.Values[i], x
+					}
+				}
+			case *ast.UnaryExpr:
+				if x.Op == token.AND && core.ObjOf(info, x.X) == o {
+					valid = false
+				}
 			}
-		}
-		leak := false
-		w := g.Path(cfgq.Query{From: cfgq.Point{B: loopBody}, Avoid: cfgq.Or(avoid, isCond), TargetExit: NormalExit,
-			AvoidEdge: func(b *cfg.Block, s int) bool {
-				if armEdge(b, s) {
-					return true
-				}
-				if b.Succs[s] == done {
-					leak = true
-					return true
-				}
-				return false
-			}})
-		if w != nil || leak {
-			bad, wit = "the waiting loop can be left by break/return without having received from the done channel", w
+			if at == nil || rhs == nil {
+				return true
+			}
+			tv, ok := info.Types[rhs]
+			if !ok || tv.Value == nil {
+				valid = false
+				return true
+			}
+			if tv.Value.String() != "true" {
+				return true
+			}
+			p, found := g.Find(at)
+			if !found || g.Path(cfgq.Query{From: g.Entry(), Avoid: avoid, AvoidEdge: armEdge, Target: IsNode(p.Node())}) != nil {
+				valid = false
+			}
+			return true
+		})
+		if valid {
+			flags[o] = true
+		} else {
+			opaque = true
 		}
 	}
-	if bad == "" {
-		if ok, w := MustPass(g, g.Entry(), false, IsNode(loop.Cond)); !ok {
-			bad, wit = "a return is reachable without going through the waiting loop", w
-		}
+	flagTrue := func(b *cfg.Block, s int) bool {
+		return EdgeFact(g, b, s, func(f cfgq.Fact) bool {
+			e := ast.Unparen(f.Expr)
+			val := f.Val
+			if be, ok := e.(*ast.BinaryExpr); ok && (be.Op == token.EQL || be.Op == token.NEQ) {
+				x, y := be.X, be.Y
+				if tv, ok := info.Types[x]; ok && tv.Value != nil {
+					x, y = y, x
+				}
+				tv, ok := info.Types[y]
+				if !ok || tv.Value == nil {
+					return false
+				}
+				e, val = ast.Unparen(x), ((tv.Value.String() == "true") == (be.Op == token.EQL)) == f.Val
+			}
+			return val && flags[core.ObjOf(info, e)]
+		})
 	}
-	c.Check(rule, key, loop.Pos(), bad == "", "the function may only leave its reporting loop through the `<-done` arm ("+bad+"): "+consequence, wit...)
+	w := g.Path(cfgq.Query{From: g.Entry(), Avoid: avoid, TargetExit: NormalExit,
+		AvoidEdge: func(b *cfg.Block, s int) bool { return armEdge(b, s) || flagTrue(b, s) }})
+	switch {
+	case w == nil:
+		c.Okf(rule, key, first.Pos(), "every return is preceded by a receive from the done channel (directly or through a flag that only the receive sets)")
+	case opaque:
+		c.Undecidedf(rule, key, first.Pos(), "a return seems reachable without the receive, but a boolean local of the function is assigned in a way that is not followed")
+	default:
+		c.Check(rule, key, first.Pos(), false, "a return is reachable without having received from the done channel (no `<-done` on the path, and no flag that only the receive sets was read as true): "+consequence, w...)
+	}
 }
 
 // ErrSpec parameterises ErrCheck.
